@@ -213,6 +213,10 @@ Definition hdr_cont (st st' : St) (h : nat) (cenc : nat * nat) (br : bool) (t : 
 Definition cenc_ok (h : nat) (cenc : nat * nat) : Prop :=
   fld_inv2 m b len cenc /\ cte_named m b len cenc /\ (snd cenc <> 0 -> fst cenc <= h).
 
+(** where the header ends: at the first empty line, or, if the window begins with an empty line, behind it *)
+Definition hdr_pos (h : nat) : Prop :=
+  h = hpos 0 w \/ (exists c0 r, w = c0 :: r /\ is_eol c0 = true /\ skipn h w = after_eol c0 r).
+
 (** what qp_header hands on when it does not give up *)
 Definition hdr_done (br : bool) (st : St) (r : Run (nat * MpRes)) : Prop :=
   match r with
@@ -221,6 +225,7 @@ Definition hdr_done (br : bool) (st : St) (r : Run (nat * MpRes)) : Prop :=
       1 <= h <= len /\
       (exists ls ll, is_multipart m ls ll = Ok mp) /\
       (forall bs bl, mp = MpYes bs bl -> 1 <= bl <= BOUNDARY_MAX /\ bs + bl <= length m) /\
+      (hdr_pos h /\ (mp = MpNo \/ exists bs bl, mp = MpYes bs bl)) /\
       existsb is8 (sub m b h) = false /\
       longrun 0 (skipn h w) = longrun 0 (skipn (hpos 0 w) w) /\
       exists t, good ext8 D0 st' t /\ (h < len \/ ends_eol w = true -> t = []) /\
@@ -262,7 +267,8 @@ Lemma hdr_match (C : Prop) (h : nat) (mp : MpRes) (cenc : nat * nat) (body_recod
      end) = Ok r /\
     match r with
     | Die _ st' => st' = st
-    | Done (h', mp') st' => h' = h /\ mp' = mp /\ exists t, good ext8 D0 st' t /\ (C -> t = []) /\
+    | Done (h', mp') st' => h' = h /\ mp' = mp /\ (mp = MpNo \/ exists bs bl, mp = MpYes bs bl) /\
+                            exists t, good ext8 D0 st' t /\ (C -> t = []) /\
                             (mp = MpNo -> hdr_cont st st' h cenc body_recode t)
     end.
 Proof.
@@ -303,21 +309,21 @@ Proof.
   destruct mp as [bs bl| | |w0].
   - destruct (Nat.eqb_spec (snd cenc) 0) as [Hz|Hnz]; cbn [negb].
     + destruct (Whole st [] Hg ltac:(now rewrite app_nil_r)) as (st1 & t & E & G & Ht & _). rewrite E.
-      eexists. split; [reflexivity|]. cbn. split; [reflexivity|]. split; [reflexivity|]. exists t. split; [exact G|]. split; [exact Ht|discriminate].
+      eexists. split; [reflexivity|]. cbn. split; [reflexivity|]. split; [reflexivity|]. split; [right; eauto|]. exists t. split; [exact G|]. split; [exact Ht|discriminate].
     + destruct (Split (fun s => s) [] (fun s H => H) ltac:(intros; now rewrite app_nil_r) Hnz) as (st3 & t & E & G & Ht & _). rewrite E.
-      eexists. split; [reflexivity|]. cbn. split; [reflexivity|]. split; [reflexivity|]. exists t. split; [exact G|]. split; [exact Ht|discriminate].
+      eexists. split; [reflexivity|]. cbn. split; [reflexivity|]. split; [reflexivity|]. split; [right; eauto|]. exists t. split; [exact G|]. split; [exact Ht|discriminate].
   - destruct body_recode; cbn [negb].
     + destruct (Nat.eqb_spec (snd cenc) 0) as [Hz|Hnz]; cbn [negb].
       * destruct (Whole (recodeheader helo st) MK (Hrh st Hg) ltac:(apply outof_wr)) as (st1 & t & E & G & Ht & (X2 & c & O & Hc & I & U1 & U2)).
-        rewrite E. eexists. split; [reflexivity|]. cbn beta iota. split; [reflexivity|]. split; [reflexivity|].
+        rewrite E. eexists. split; [reflexivity|]. cbn beta iota. split; [reflexivity|]. split; [reflexivity|]. split; [left; reflexivity|].
         exists t. split; [exact G|]. split; [exact Ht|]. intros _. unfold hdr_cont. apply Nat.eqb_eq in Hz. rewrite Hz. cbn [andb negb].
         exists [], X2, c. auto.
       * destruct (Split (recodeheader helo) MK Hrh ltac:(intros; apply outof_wr) Hnz) as (st3 & t & E & G & Ht & (X1 & X2 & c & O & Hc & I & U1 & U2)).
-        cbv zeta. rewrite E. eexists. split; [reflexivity|]. cbn beta iota. split; [reflexivity|]. split; [reflexivity|].
+        cbv zeta. rewrite E. eexists. split; [reflexivity|]. cbn beta iota. split; [reflexivity|]. split; [reflexivity|]. split; [left; reflexivity|].
         exists t. split; [exact G|]. split; [exact Ht|]. intros _. unfold hdr_cont. apply Nat.eqb_neq in Hnz. rewrite Hnz. cbn [andb negb].
         exists X1, X2, c. auto.
     + destruct (Whole st [] Hg ltac:(now rewrite app_nil_r)) as (st1 & t & E & G & Ht & (X2 & c & O & Hc & I & U1 & U2)). rewrite E.
-      eexists. split; [reflexivity|]. cbn beta iota. split; [reflexivity|]. split; [reflexivity|].
+      eexists. split; [reflexivity|]. cbn beta iota. split; [reflexivity|]. split; [reflexivity|]. split; [left; reflexivity|].
       exists t. split; [exact G|]. split; [exact Ht|]. intros _. unfold hdr_cont. cbn [andb].
       exists [], X2, c. auto.
   - eexists. split; [reflexivity|reflexivity].
@@ -355,7 +361,7 @@ Lemma hdr_tail (h : nat) (ct cenc : nat * nat) (body_recode : bool) (st : St) :
   good ext8 D0 st [] -> 1 <= h <= len ->
   (snd ct = 0 \/ CT_LEN < snd ct /\ fst ct + snd ct <= len /\ field_ok m (b + fst ct) (snd ct)) ->
   longrun 0 (skipn h w) = longrun 0 (skipn (hpos 0 w) w) ->
-  cenc_ok h cenc ->
+  cenc_ok h cenc -> hdr_pos h ->
   (existsb is8 (sub m b h) = false ->
    (forall st0, good ext8 D0 st0 [] ->
       exists st' t, wrap_header m b h st0 = Ok st' /\ good ext8 D0 st' t /\ (h < len \/ ends_eol w = true -> t = []) /\
@@ -368,7 +374,7 @@ Lemma hdr_tail (h : nat) (ct cenc : nat * nat) (body_recode : bool) (st : St) :
                     cont (sub m (b + (fst cenc + snd cenc)) (h - (fst cenc + snd cenc))) st0 st' t)) ->
   exists r, hdr_rest h ct cenc body_recode st = Ok r /\ hdr_done body_recode st r.
 Proof.
-  intros Hg Hh Hct Hlr Hcok Pieces. unfold hdr_rest.
+  intros Hg Hh Hct Hlr Hcok Hpos Pieces. unfold hdr_rest.
   rewrite (need_recode_ok m b h) by lia. cbn [bind].
   destruct (nr_fun_facts (sub m b h) flags0 0 false) as [H8 _]. cbv zeta in H8. cbn [f8 flags0 orb] in H8.
   destruct (f8 (nr_fun (sub m b h) flags0 0 false)).
@@ -379,10 +385,10 @@ Proof.
   rewrite Emp. cbn [bind].
   destruct (hdr_match (h < len \/ ends_eol w = true) h mp cenc body_recode st Hg PW P1 P2) as (r & Er & Hr).
   exists r. split; [exact Er|]. destruct r as [[h' mp'] st'|why st']; [|exact Hr].
-  destruct Hr as (-> & -> & t & Gt & Ht & Hcont). unfold hdr_done. split; [exact Hh|]. split; [eauto|]. split.
+  destruct Hr as (-> & -> & Hkind & t & Gt & Ht & Hcont). unfold hdr_done. split; [exact Hh|]. split; [eauto|]. split.
   - intros bs bl ->. destruct (Hmp bs bl eq_refl) as (Hbl & Hbs & Hbe). split; [exact Hbl|].
     destruct Hct as [Hz|(_ & B & _)]; [rewrite Hz in Hbe; lia|lia].
-  - split; [exact H8|]. split; [exact Hlr|]. exists t. split; [exact Gt|]. split; [exact Ht|].
+  - split; [split; [exact Hpos|exact Hkind]|]. split; [exact H8|]. split; [exact Hlr|]. exists t. split; [exact Gt|]. split; [exact Ht|].
     intros Emp'. exists cenc. split; [exact Hcok|]. apply Hcont. exact Emp'.
 Qed.
 
@@ -421,7 +427,7 @@ Proof.
   intros Hg Ew He Hh Hhl Hsk Hends.
   assert (Hcok : cenc_ok h (0, 0)).
   { split; [split; [left; reflexivity|intros Hn; cbn in Hn; contradiction]|]. split; intros Hn; cbn in Hn; contradiction. }
-  apply hdr_tail; [exact Hg|lia|left; reflexivity| |exact Hcok|].
+  apply hdr_tail; [exact Hg|lia|left; reflexivity| |exact Hcok|right; exists c0, r; auto|].
   - rewrite Hsk. rewrite Ew. rewrite (hpos_eol_z c0 r He). cbn [skipn]. rewrite longrun_cons, He.
     replace (Nat.ltb MAXLINE 0) with false by (symmetry; apply Nat.ltb_ge; lia). reflexivity.
   - intros H8. split; [|split; intros Hn; cbn in Hn; contradiction].
@@ -451,7 +457,7 @@ Proof.
   assert (Hsh0 : snd ce' <> 0 -> fst ce' <= h).
   { intros Hn. destruct Fce as (Finv & _). destruct Finv as [Hz0|(_ & Hel & _)]; [contradiction|].
     unfold h. destruct (Nat.eqb_spec hd 0) as [E|E]; [lia|]. apply (Hmono E). exact Hn. }
-  apply hdr_tail; [exact Hg|lia|exact (proj1 Fct)|now rewrite HhP|split; [exact Fce|split; [exact Hnamed|exact Hsh0]]|].
+  apply hdr_tail; [exact Hg|lia|exact (proj1 Fct)|now rewrite HhP|split; [exact Fce|split; [exact Hnamed|exact Hsh0]]|left; exact HhP|].
   intros H8. rewrite sub_prefix in H8 by lia.
   set (hw := firstn h w) in *.
   assert (Hhwl : length hw = h) by (unfold hw; rewrite firstn_length, w_len; lia).
@@ -607,7 +613,7 @@ Proof.
   destruct (qp_header_spec (f8 rf || fline rf) st Hg) as (res & E & Hd). rewrite E.
   destruct res as [[h mp] st1|why st1]; cbn [bindR].
   2: { eexists. split; [reflexivity|]. exact Hd. }
-  destruct Hd as (Hh & (ls & ll & Emp) & _ & H8 & Hlr & t & Gt & Ht & Hcont).
+  destruct Hd as (Hh & (ls & ll & Emp) & _ & _ & H8 & Hlr & t & Gt & Ht & Hcont).
   destruct (Nat.ltb_spec len h) as [Hbad|_]; [lia|].
   assert (Body : exists res,
             (if f8 rf || fline rf then liftS (recode_qp m (b + h) (len - h) st1)
